@@ -244,11 +244,24 @@ func init() {
 		case "clonebag":
 			c, err = al.CloneSeqBag()
 		case "subalign":
-			c, err = al.SubAlign(0, L)
+			// optional a[3] = "start,length" (default: the whole alignment)
+			st, ln := 0, L
+			if len(a) > 3 && a[3] != "_" {
+				f := strings.Split(a[3], ",")
+				st, ln = atoi(f[0]), atoi(f[1])
+			}
+			c, err = al.SubAlign(st, ln)
 		case "selectsites":
+			// optional a[3] = site list (default: every site in order)
 			sites := make([]int, L)
 			for i := range sites {
 				sites[i] = i
+			}
+			if len(a) > 3 && a[3] != "_" {
+				sites = sites[:0]
+				for _, x := range strings.Split(a[3], ",") {
+					sites = append(sites, atoi(x))
+				}
 			}
 			c, err = al.SelectSites(sites)
 		case "transpose":
@@ -260,7 +273,13 @@ func init() {
 		case "sample":
 			c, err = al.Sample(al.NbSequences())
 		case "randsub":
-			c, err = al.RandSubAlign(L, true)
+			// optional a[3] = "length,consecutive"
+			ln, cons := L, true
+			if len(a) > 3 && a[3] != "_" {
+				f := strings.Split(a[3], ",")
+				ln, cons = atoi(f[0]), atob(f[1])
+			}
+			c, err = al.RandSubAlign(ln, cons)
 		default:
 			return "bad-op"
 		}
@@ -272,7 +291,11 @@ func init() {
 		// arbitrary in-place mutations of the copy
 		c.ToLower()
 		for i := 0; i < c.NbSequences(); i++ {
-			c.SetSequenceChar(i, 0, '#')
+			if s, ok := c.GetSequenceById(i); ok {
+				for j := 0; j < len(s); j++ {
+					c.SetSequenceChar(i, j, '#')
+				}
+			}
 		}
 		c.Replace("a", "z", false)
 		origKept := snapshot(al) == before
